@@ -135,6 +135,7 @@ type Method struct {
 	Lookup      string      // method | export | ustruct
 	Inst        interface{} // an instance to hand to Struct()
 	Expr        interface{} // the method expression (func with the receiver first)
+	MV          interface{} // a method VALUE bound to Inst (symbol "...-fm"); nil where not applicable
 	Typ         reflect.Type
 	Entry       uintptr // address reflect reports for the method (a wrapper for generic instantiations)
 	SymName     string
